@@ -800,6 +800,9 @@ def _check_ghost_form(seg, position, where):
             if u.kind == 'punct' and u.text in OPEN:
                 e = match_close(toks, j)
                 # `assert(..) by { .. }` / `assert forall .. by { .. }` may end without ';'
+                if u.text == '{' and e + 1 < len(toks) and toks[e + 1].text == 'else':
+                    j = e + 2          # `if .. { .. } else ..` continues the same ghost statement
+                    continue
                 if u.text == '{' and (e + 1 >= len(toks) or toks[e + 1].text != ';'):
                     j = e
                     break
